@@ -253,6 +253,11 @@ func TestDrv_C10(t *testing.T) {
 				tr.Emit("Reset", KV{"n": n, "perm": pi})
 				var m vegeta.Metrics
 				closeProb := []float64{0, 0.02, 0.5}[r.Intn(3)]
+				if r.Intn(3) == 0 { // periodic reporting may close before the first result arrives
+					m.Close()
+					tr.Emit("Close", closeEvent(&m, "fields"))
+					closes++
+				}
 				for _, idx := range perm {
 					m.Add(&rs[idx])
 					tr.Emit("Add", addEvent(&rs[idx]))
@@ -321,11 +326,16 @@ func TestDrv_C10(t *testing.T) {
 				return err
 			}
 			for _, unit := range []time.Duration{time.Second, 1} {
-				for mask := 0; mask < 1<<len(c.Adds); mask++ {
+				for mask := 0; mask < 2<<len(c.Adds); mask++ { // the top bit: a Close before the first addition (a report tick on an empty set)
 					cases++
 					grid++
 					tr.Emit("Reset", KV{"n": len(c.Adds), "perm": "grid", "mask": mask})
 					var m vegeta.Metrics
+					if mask&(1<<len(c.Adds)) != 0 {
+						m.Close()
+						tr.Emit("Close", closeEvent(&m, "fields"))
+						closes++
+					}
 					for i, a := range c.Adds {
 						res := vegeta.Result{Seq: uint64(i), Code: 200, Timestamp: base.Add(time.Duration(a.Ts) * unit), Latency: time.Duration(a.Lat) * unit}
 						m.Add(&res)
